@@ -171,6 +171,8 @@ def interest(st, ids):
     for x in ids:
         if x in st.n and st.cls(x) == 'ConnectionPoint':
             score += len(st.child_cps(x)) * 2
+            for k in st.child_cps(x):
+                score += 2 * len(st.links_of_cp(k))
             for l in st.links_of_cp(x):
                 score += 1 + (2 if len(st.cps_of_link(l)) > 2 else 0)
             if st.typ(x) == 'ServicePort' and any(st.typ(p) == 'ServicePort' for p in st.peers(x)):
@@ -397,10 +399,11 @@ def g_add_network_service(w, rng, st):
     ifs = [{'node': a, 'if': b} for a, b, _ in free[:k]]
     # sub-interfaces are connectable too
     subs = [cp for cp in st.of_class('ConnectionPoint') if st.is_sub(cp) and not st.links_of_cp(cp)]
-    if subs and rng.random() < 0.3:
-        r = iface_ref(st, rng.choice(subs))
-        if r:
-            ifs.append(r)
+    if subs and rng.random() < 0.35:
+        for c in rng.sample(subs, min(len(subs), rng.choice([1, 1, 2]))):
+            r = iface_ref(st, c)
+            if r:
+                ifs.append(r)
     kw = gen_good_kwargs(rng, 'service') if rng.random() < 0.3 else {}
     s = {'name': pick_name(rng, W.SVC_NAMES, existing), 'nstype': nstype, 'ifs': ifs, 'id': maybe_id(w, rng, st),
          'kw': kw}
@@ -450,10 +453,27 @@ def x_add_port_mirror_service(w, s, st, info):
 def g_connect_interface(w, rng, st):
     svcs = top_services(st)
     free = free_ifaces(st)
-    if not svcs or not free:
+    subs = [c for c in st.of_class('ConnectionPoint') if st.is_sub(c) and not st.links_of_cp(c)]
+    if not svcs or not (free or subs):
         return None
-    a, b, cp = rng.choice(free)
     sv = rng.choice(svcs)
+    if subs and 'subif_name_reuse' not in w.avoid:
+        # equally named sub-interfaces of one node on one service: their service ports get the same derived name
+        for x in svcs:
+            peers = [p for sp in st.cps_of_service(x) for p in st.peers(sp) if st.is_sub(p)]
+            twins = [c for c in subs if any(st.name(c) == st.name(p) and st.owner_node_of_cp(c) == st.owner_node_of_cp(p)
+                                            for p in peers)]
+            if twins and rng.random() < 0.7:
+                r = iface_ref(st, rng.choice(twins))
+                if r:
+                    return {'svc': st.name(x), 'iface': r}
+    if subs and (not free or rng.random() < 0.4):
+        cp = rng.choice(subs)
+        r = iface_ref(st, cp)
+        if r is None:
+            return None
+        return {'svc': st.name(sv), 'iface': r}
+    a, b, cp = rng.choice(free)
     if 'guardrail_on_connect' in w.avoid and st.typ(sv) == 'L2PTP' and st.typ(cp) == 'SharedPort':
         return None
     return {'svc': st.name(sv), 'iface': {'node': a, 'if': b}}
@@ -480,6 +500,13 @@ def g_add_child_interface(w, rng, st):
     pool = W.SUB_NAMES
     if 'subif_name_reuse' in w.avoid:
         pool = ['%s-%s' % (st.name(cp), x) for x in W.SUB_NAMES]
+    else:
+        # a name already used by a sub-interface under another port of the same node (legal: scopes differ)
+        node = st.owner_node_of_cp(cp)
+        cousins = [st.name(k) for p2 in (st.node_interfaces(node) if node else []) if p2 != cp for k in st.child_cps(p2)]
+        cousins = [c for c in cousins if c not in existing]
+        if cousins and rng.random() < 0.6:
+            pool = cousins
     return {'iface': r, 'name': pick_name(rng, pool, existing), 'vlan': str(rng.choice([100, 101, 102, 103])),
             'id': maybe_id(w, rng, st)}
 
@@ -641,6 +668,13 @@ def g_disconnect_interface(w, rng, st):
     if not cands:
         return None
     sv, r = rng.choice(cands)
+    # a service holding two ports of one name first
+    for x in top_services(st):
+        names = [st.name(c) for c in st.cps_of_service(x)]
+        if len(set(names)) != len(names) and rng.random() < 0.7:
+            mine = [(a, b) for a, b in cands if a == st.name(x)]
+            if mine:
+                sv, r = rng.choice(mine)
     return {'svc': sv, 'iface': r}
 
 
@@ -1274,6 +1308,21 @@ def failing_variants(w, rng, st):
         if r:
             out.append({'template': 'subif_on_shared_port', 'call': 'add_child_interface', 'iface': r, 'name': 'subX',
                         'vlan': '997', 'id': None})
+    # ---- property writes that are rejected half way: set_properties(good, BAD, good) on every element kind
+    from .w2_props import element_targets
+    seen_kinds = set()
+    for kind, ref, xid in element_targets(st):
+        if kind in seen_kinds:
+            continue
+        seen_kinds.add(kind)
+        goods = [('details', 'fresh details'), ('capacities', {'_t': 'Capacities', 'a': {'bw': 3}})]
+        for bk, bv in (('labels', 12), ('no_such_property', 1)):
+            for pos in range(3):
+                items = goods[:pos] + [(bk, bv)] + goods[pos:]
+                out.append({'template': 'set_properties_bad', 'pos': '%s:%s@%d' % (kind, bk, pos), 'call': 'set_properties_raw',
+                            'kind': kind, 'ref': ref, 'vals': {k: v for k, v in items}, 'order': [k for k, _ in items]})
+        out.append({'template': 'set_property_bad', 'pos': kind, 'call': 'set_properties_raw', 'kind': kind, 'ref': ref,
+                    'vals': {'labels': 12}, 'order': ['labels'], 'single': True})
     # ---- peering / removal of absent things
     if len(tops) >= 2:
         a, b = rng.sample(tops, 2)
@@ -1312,7 +1361,7 @@ def g_failing(w, rng, st):
     vs = failing_variants(w, rng, st)
     if not vs:
         return None
-    if rng.random() < 0.35 and not w.queue:
+    if rng.random() < 0.35 and not w.queue and w.stats.c.get('probe.failing_catalogue_enumerations', 0) < 2:
         # fault enumeration: every template x position applicable in this state, one after another
         w.queue = [dict(v, op='failing') for v in vs[1:]]
         w.stats.inc('probe.failing_catalogue_enumerations')
@@ -1346,6 +1395,14 @@ def x_failing(w, s, st, info):
     elif call == 'add_facility' and s.get('pre_taken'):
         # a derived id ('<id>-ns') is already used by some element: make it so, then call
         raise SkipStep()
+    elif call == 'set_properties_raw':
+        from .w2_props import get_element
+        e = get_element(w, s['kind'], s['ref'])
+        kw = build_kwargs({k: s['vals'][k] for k in s['order']})
+        if s.get('single'):
+            e.set_property(s['order'][0], kw[s['order'][0]])
+        else:
+            e.set_properties(**kw)
     elif call == 'add_node' and s.get('kworder'):
         from fim.slivers.network_node import NodeType
         kw = build_kwargs({k: s['kw'][k] for k in s['kworder']})
